@@ -854,6 +854,8 @@ func (tr *Tr) callByContract(fr *Frame, site ssa.Instruction, fn *ssa.Function, 
 	tr.bumpAlloc(post)
 	res := tr.freshVal(fn.Signature.Results(), "r_"+fn.Name())
 	env2 := tr.calleeEnv(fn, ct, args, pre, post)
+	// functional postconditions (`retN == e`, e free of results) define the result instead of constraining a fresh variable
+	tr.defineResults(env2, fn.Signature, ct, res)
 	bindResults(env2, fn.Signature, res)
 	reach := fr.reach[fr.cur]
 	for _, e := range ct.Ensures {
@@ -1312,3 +1314,90 @@ func derefDepth(e ast.Expr) int {
 }
 
 var _ = constant.MakeBool
+
+// defineResults looks for top-level conjuncts `retN == e` in the ensures clauses where e does not mention any result,
+// and replaces the fresh result leaves by e's value (same meaning, but syntactically transparent to the simplifier).
+func (tr *Tr) defineResults(env *Env, sig *types.Signature, ct *Contract, res Val) {
+	names := map[string]int{}
+	offs := []int{}
+	off := 0
+	for i := 0; i < sig.Results().Len(); i++ {
+		r := sig.Results().At(i)
+		names[fmt.Sprintf("ret%d", i)] = i
+		if r.Name() != "" && r.Name() != "_" {
+			names[r.Name()] = i
+		}
+		offs = append(offs, off)
+		off += nleaves(r.Type())
+	}
+	mentionsResult := func(e ast.Expr) bool {
+		found := false
+		ast.Inspect(e, func(n ast.Node) bool {
+			if id, ok := n.(*ast.Ident); ok {
+				if _, isRes := names[id.Name]; isRes {
+					found = true
+				}
+				if id.Name == "fresh" {
+					found = true
+				}
+			}
+			return !found
+		})
+		return found
+	}
+	var conj func(e ast.Expr)
+	conj = func(e ast.Expr) {
+		switch x := e.(type) {
+		case *ast.ParenExpr:
+			conj(x.X)
+		case *ast.BinaryExpr:
+			if x.Op == token.LAND {
+				conj(x.X)
+				conj(x.Y)
+				return
+			}
+			if x.Op != token.EQL {
+				return
+			}
+			lhs, rhs := x.X, x.Y
+			id, ok := lhs.(*ast.Ident)
+			if !ok {
+				lhs, rhs = rhs, lhs
+				id, ok = lhs.(*ast.Ident)
+			}
+			if !ok {
+				return
+			}
+			ri, isRes := names[id.Name]
+			if !isRes || mentionsResult(rhs) {
+				return
+			}
+			v, err := env.Eval(rhs)
+			if err != nil {
+				return
+			}
+			rt := sig.Results().At(ri).Type()
+			if v.C != nil {
+				func() {
+					defer func() { _ = recover() }()
+					v = env.asType(v, rt)
+				}()
+			}
+			ls := shape(rt)
+			if v.C != nil || v.Ghost != "" || len(v.V) != len(ls) {
+				return
+			}
+			for k := range ls {
+				if v.V[k].S != ls[k].S {
+					return
+				}
+			}
+			for k := range ls {
+				res[offs[ri]+k] = v.V[k]
+			}
+		}
+	}
+	for _, e := range ct.Ensures {
+		conj(e.Expr)
+	}
+}
